@@ -94,6 +94,21 @@ def inject(dest, with_kani=True, with_rt=True, map_subst=True):
             if len(idx) != 1:
                 raise LostAnchor("fn %s in %s (%d matches)" % (c["fn"], rel, len(idx)))
             i = idx[0]
+            if "loop" in c:
+                # n-th `while` (1-based) after the fn anchor, inside that fn (up to the next fn)
+                n = 0
+                j = i + 1
+                found = None
+                while j < len(lines) and not re.match(r"^\s*(pub(\([a-z]+\))?\s+)?fn\s", lines[j]):
+                    if re.match(r"^\s*while\b", lines[j]):
+                        n += 1
+                        if n == c["loop"]:
+                            found = j
+                            break
+                    j += 1
+                if found is None:
+                    raise LostAnchor("while #%d of fn %s in %s" % (c["loop"], c["fn"], rel))
+                i = found
             indent = re.match(r"^\s*", lines[i]).group(0)
             add = [indent + "#[cfg_attr(kani, %s)]" % a for a in c["attrs"]]
             lines[i:i] = add
